@@ -14,7 +14,7 @@ def run(ctx) -> Report:
     if not ctx.replay:
         P.run_mc(rep, ctx, "C03")
     n = 1 if ctx.quick else 12
-    P.conformance(rep, ctx, "C03", {"plain": 500 * n, "legacy": 250 * n, "txn": 150 * n, "oor-race": 80 * n})
+    P.conformance(rep, ctx, "C03", {"plain": 500 * n, "legacy": 250 * n, "txn": 150 * n, "oor-race": 80 * n, "reset": 100 * n, "reset-race": 100 * n})
     rep.extra.update(
         bounds="MC: 1 partition, 4 log shapes (compaction holes, empty batch, interleaved committed/aborted/open "
                "transactions of 2 producers, solitary abort marker, log start > 0), hw at/below end, every response cut, "
